@@ -114,7 +114,7 @@ func copySkeletonRules(w *World, r *Report, a *cmdAnchors, f *ssa.Function, srcF
 		guarded := false
 		for _, c := range callsTo(f, a.plAllEmpty) {
 			for _, b := range f.Blocks {
-				onT, _, ok := boolCallEdges(b, c)
+				onT, ok := boolCallTrueEdge(b, c)
 				if ok && edgeDominates(b, onT, ret.Block()) {
 					if ls, ok := leafCallsOf(c.Common().Args[0]); ok && len(ls) > 0 && calleeIs(ls[0].call, allowed...) {
 						guarded = true
